@@ -337,7 +337,7 @@ def cases(prop, tier, seed):
   out = []
   for b in range(nb):
     iface = ['hello', 'base', 'base', 'derived'][b % 4]
-    out.append({'kind': 'rpc', 'calls': [_gen_call(rng, iface) for _ in range(per)]})
+    out.append({'kind': 'rpc', 'calls': [_gen_call(rng, iface) for _ in range(per)], 'reuse': len(out) % 2})
   return out
 
 
@@ -581,8 +581,10 @@ def _outcome(kind, val, result_spec):
   return {'kind': 'error', 'wrapped': wrapped, 'cls': type(inner).__name__, 'v': v}
 
 
-def _one_call(loop, net, call, chunks, cut):
-  """Issue `call` once on a fresh client; deliver the reply stream with `chunks` (None = full reads)."""
+def _one_call(loop, net, call, chunks, cut, cache=None):
+  """Issue `call` once; deliver the reply stream with `chunks` (None = full reads).  With `cache` the
+  client of an earlier call of the same script is re-used while it is healthy (state kept between calls,
+  e.g. buffers, sequence ids, the pooled connection), otherwise a fresh client is built."""
   import gevent
   iface_mod = _ifaces()[call['iface']]
   chain = _module_chain(iface_mod)
@@ -604,8 +606,13 @@ def _one_call(loop, net, call, chunks, cut):
     sock.sidx = 0
 
   net.on_frame = on_frame
-  del net.sockets[:]
-  proxy = _build_client(iface_mod, call['stack'], call.get('proto', 'accel'))
+  key = (call['iface'], call['stack'], call.get('proto', 'accel'))
+  proxy = cache.get(key) if cache is not None else None
+  if proxy is None:
+    if cache is None:
+      del net.sockets[:]
+    proxy = _build_client(iface_mod, call['stack'], call.get('proto', 'accel'))
+  marks = [(sk, len(sk.sent)) for sk in net.sockets]
   loop.settle()
   args = [from_tv(v) for v in call['pos']]
   kwargs = dict((x['k'], from_tv(x['v'])) for x in call['kw'])
@@ -643,12 +650,19 @@ def _one_call(loop, net, call, chunks, cut):
   rspec = None
   if result_cls is not None and result_cls.thrift_spec and result_cls.thrift_spec[0]:
     rspec = result_cls.thrift_spec[0]
-  sent = bytes(net.sockets[-1].sent) if net.sockets else b''
+  known = dict((id(sk), n) for sk, n in marks)
+  sent = b''.join(bytes(sk.sent[known.get(id(sk), 0):]) for sk in net.sockets)
   sock = st['sock']
-  try:
-    proxy.DispatcherClose()
-  except Exception:
-    pass
+  healthy = cut < 0 and out[0] in ('value',) and not oneway
+  if cache is not None and healthy:
+    cache[key] = proxy
+  else:
+    if cache is not None:
+      cache.pop(key, None)
+    try:
+      proxy.DispatcherClose()
+    except Exception:
+      pass
   loop.settle()
   return {'sent': sent, 'srv': rec, 'stream': st['stream'], 'out': _outcome(out[0], out[1], rspec),
           'reads': list(sock.log) if sock is not None else []}
@@ -662,13 +676,15 @@ def _run_rpc(script):
   _limit_memory()
   ev = []
   meta = []
+  # half of the scripts keep their clients between calls (cross-call state: buffers, pooled connection)
+  cache = {} if script.get('reuse') else None
   for call in script['calls']:
-    ref = _one_call(loop, net, call, None, call['cut'])
+    ref = _one_call(loop, net, call, None, call['cut'], cache)
     n = len(ref['stream'] or b'')
     chunks = call['chunks']
     if chunks is None:
       chunks = _gen_chunks(random.Random(call['chunkseed']), max(n, 1))
-    run = _one_call(loop, net, call, chunks, call['cut'])
+    run = _one_call(loop, net, call, chunks, call['cut'], cache)
     srv = dict(ref['srv'])
     srv.pop('err', None)
     ev.append({'e': 'Call', 'm': call['m'], 'pos': call['pos'], 'kw': call['kw'],
